@@ -26,7 +26,8 @@ func SafeCmdExecution(executable string, args []string, timeout time.Duration) (
 
 	cmd := exec.CommandContext(ctx, path, args...)
 	// don't wait forever for child processes of the command that keep its output open
-	cmd.WaitDelay = 100 * time.Millisecond
+	// (but long enough for the output of a finished command to be collected on a busy machine)
+	cmd.WaitDelay = 500 * time.Millisecond
 	out, err := cmd.Output()
 
 	if ctx.Err() == context.DeadlineExceeded {
